@@ -132,6 +132,42 @@ func (g *G) props(scope int, cfg *Cfg) []ref.Prop {
 	return res
 }
 
+// Foreign inserts n properties that MQTT defines but does NOT allow in this
+// packet (e.g. a subscription identifier in a CONNACK, a topic alias among the
+// will properties) at tape-drawn positions of its property sections. The
+// result is no longer a valid packet; it is a base for faults whose rejection
+// does not depend on the rest of the frame being valid.
+func Foreign(t *sim.Tape, a *ref.AP, n int) int {
+	if a.Type == ref.PingReq || a.Type == ref.PingResp || a.Type == ref.Reserved0 {
+		return 0
+	}
+	g := &G{T: t}
+	added := 0
+	for i := 0; i < n; i++ {
+		scope, list := int(a.Type), &a.Props
+		if a.Type == ref.Connect && a.Will != nil && a.ConnFlags&ref.CFWill != 0 && t.Bool(1, 3) {
+			scope, list = ref.WillScope, &a.Will.Props
+		}
+		var cands []*ref.PropDef
+		for k := range ref.PropTable {
+			d := &ref.PropTable[k]
+			if d.In&(1<<uint(scope)) == 0 {
+				cands = append(cands, d)
+			}
+		}
+		if len(cands) == 0 {
+			continue
+		}
+		p := g.propValue(cands[t.Int(len(cands))], false)
+		at := t.Int(len(*list) + 1)
+		out := append([]ref.Prop{}, (*list)[:at]...)
+		out = append(out, p)
+		*list = append(out, (*list)[at:]...)
+		added++
+	}
+	return added
+}
+
 // Packet draws one abstract packet.
 func Packet(t *sim.Tape, cfg Cfg) *ref.AP {
 	g := &G{T: t, Thorough: cfg.Thorough, big: 1}
